@@ -281,6 +281,19 @@ func GenSelDomain(t *rapid.T) SelDomain {
 	return SelDomain{W: 32, Addrs: SelV4Addrs}
 }
 
+// GenSelDomainMaybeMixed is GenSelDomain, except that in one case out of three
+// peer addresses and next hops of both families occur side by side (an IPv4
+// prefix learned from one router over an IPv4 and an IPv6 session). Only for
+// checks that do not need an order between addresses of different families
+// (C02's algebraic laws); the reference comparator is not consulted for such
+// pairs beyond equality.
+func GenSelDomainMaybeMixed(t *rapid.T) SelDomain {
+	if rapid.IntRange(0, 2).Draw(t, "mixed_families") == 0 {
+		return SelDomain{W: 0, Addrs: append(append([]Bits{}, SelV4Addrs...), SelV6Addrs...)}
+	}
+	return GenSelDomain(t)
+}
+
 func (d SelDomain) genAddr(t *rapid.T, label string) Bits {
 	return rapid.SampledFrom(d.Addrs).Draw(t, label)
 }
